@@ -258,6 +258,34 @@ var prop = h.Prop[Spec]{
 
 func TestProp(t *testing.T) { h.Run(t, prop) }
 
+// long runs of damage: one file of 66-150 blocks with 1-2 scrambled ranges that may span more blocks than one
+// aggregated wound can hold (4 MiB = 64 blocks), plus the usual damages on the small files around it
+var propLong = h.Prop[Spec]{
+	ID: "C05", Name: "longrun",
+	Gen: func(t *rapid.T) Spec {
+		tr := h.GenOldTree(t, h.GenOpts{MaxOld: 3})
+		nb := rapid.OneOf(rapid.IntRange(66, 70), rapid.IntRange(127, 132), rapid.IntRange(66, 150)).Draw(t, "big-blocks")
+		size := nb*h.BS + rapid.SampledFrom([]int{0, 1, 1234, h.BS - 1}).Draw(t, "big-tail")
+		name := rapid.SampledFrom([]string{"0big", "mbig", "zbig"}).Draw(t, "big-name")
+		if !tr.CanAdd(name) {
+			tr = h.Tree{}
+		}
+		tr = tr.Add(h.Entry{Path: name, Kind: h.KFile, C: h.Content{{Src: 30, Len: size}}})
+		ds := h.GenDamages(t, tr, 2, true, false)
+		nr := rapid.IntRange(1, 2).Draw(t, "nranges")
+		for i := 0; i < nr; i++ {
+			b0 := rapid.OneOf(rapid.Just(0), rapid.IntRange(0, nb-1)).Draw(t, "from-block")
+			ln := rapid.OneOf(rapid.SampledFrom([]int{64, 65, 66, 128, 129, 130}), rapid.IntRange(1, nb+1)).Draw(t, "nblocks")
+			off := b0*h.BS + rapid.SampledFrom([]int{0, 0, 0, 1, h.BS - 1}).Draw(t, "in-block")
+			ds = append(ds, h.Dmg{Path: name, Op: "scramble", Off: off, Len: ln*h.BS - rapid.SampledFrom([]int{0, 0, 1, 77}).Draw(t, "short-by")})
+		}
+		return Spec{Tree: tr, Damages: ds, SigFile: rapid.IntRange(0, 5).Draw(t, "signature-from-stream") == 0}
+	},
+	Check: check,
+}
+
+func TestLong(t *testing.T) { h.Run(t, propLong) }
+
 func TestReplay(t *testing.T) {
-	h.ReplayMain(t, map[string]h.Replayer{"wounds": h.ReplayerOf(prop)})
+	h.ReplayMain(t, map[string]h.Replayer{"wounds": h.ReplayerOf(prop), "longrun": h.ReplayerOf(propLong)})
 }
